@@ -268,7 +268,7 @@ func (ir *ifdReader) ParseSubSecTime(t Tag) uint16 {
 
 func (ir *ifdReader) parseLensInfo(t Tag) LensInfo {
 	if !t.IsEmbedded() {
-		buf, err := ir.readTagValue()
+		buf, err := ir.readTagValue(t)
 		if err != nil || len(buf) < 32 {
 			return LensInfo{}
 		}
@@ -286,7 +286,7 @@ func (ir *ifdReader) parseLensInfo(t Tag) LensInfo {
 func (ir *ifdReader) ParseRationalU(t Tag) [2]uint32 {
 	switch t.Type {
 	case tag.TypeSignedRational, tag.TypeRational:
-		buf, err := ir.readTagValue()
+		buf, err := ir.readTagValue(t)
 		if err != nil || len(buf) < 8 {
 			return [2]uint32{}
 		}
@@ -338,7 +338,7 @@ func (ir *ifdReader) ParseString(t Tag) string {
 		return string(trimNULBuffer(ir.buffer.buf[:t.Size()]))
 	}
 	if t.IsType(tag.TypeASCII) || t.IsType(tag.TypeASCIINoNul) {
-		buf, _ := ir.readTagValue()
+		buf, _ := ir.readTagValue(t)
 		return string(trimNULBuffer(buf)) // Trim function
 	}
 	if ir.logLevelWarn() {
@@ -356,7 +356,7 @@ func (ir *ifdReader) ParseBuffer(t Tag) []byte {
 		return trimNULBuffer(ir.buffer.buf[:t.Size()])
 	}
 	if t.IsType(tag.TypeASCII) || t.IsType(tag.TypeASCIINoNul) {
-		buf, err := ir.readTagValue()
+		buf, err := ir.readTagValue(t)
 		if err != nil {
 			return nil
 		}
@@ -373,7 +373,7 @@ func (ir *ifdReader) ParseBuffer(t Tag) []byte {
 // Non-embedded tag with 20 byte length.
 func (ir *ifdReader) ParseDate(t Tag) time.Time {
 	if t.IsType(tag.TypeASCII) {
-		buf, err := ir.readTagValue()
+		buf, err := ir.readTagValue(t)
 		if err != nil || len(buf) < 19 {
 			return time.Time{}
 		}
@@ -399,7 +399,7 @@ func (ir *ifdReader) ParseDate(t Tag) time.Time {
 // Non-embedded tag with 6 byte length.
 func (ir *ifdReader) ParseOffsetTime(t Tag) *time.Location {
 	if t.IsType(tag.TypeASCII) {
-		buf, err := ir.readTagValue()
+		buf, err := ir.readTagValue(t)
 		if err != nil || len(buf) < 6 {
 			return time.UTC
 		}
@@ -433,7 +433,7 @@ func (ir *ifdReader) ParseGPSCoord(t Tag) float64 {
 	if t.UnitCount == 3 {
 		switch t.Type {
 		case tag.TypeRational, tag.TypeSignedRational: // Some cameras write tag out of spec using signed rational. We accept that too.
-			buf, err := ir.readTagValue()
+			buf, err := ir.readTagValue(t)
 			if err != nil || len(buf) < 24 {
 				return 0.0
 			}
@@ -454,7 +454,7 @@ func (ir *ifdReader) ParseGPSAltitude(t Tag) float32 {
 	if t.UnitCount == 1 {
 		switch t.Type {
 		case tag.TypeRational, tag.TypeSignedRational: // Some cameras write tag out of spec using signed rational. We accept that too.
-			buf, err := ir.readTagValue()
+			buf, err := ir.readTagValue(t)
 			if err != nil || len(buf) < 8 {
 				return 0.0
 			}
@@ -470,7 +470,7 @@ func (ir *ifdReader) ParseGPSAltitude(t Tag) float32 {
 // parseGPSTimeStamp parses the GPSTimeStamp tag in UTC.
 func (ir *ifdReader) parseGPSTimeStamp(t Tag) uint32 {
 	if t.UnitCount == 3 && t.Type == tag.TypeRational {
-		buf, err := ir.readTagValue()
+		buf, err := ir.readTagValue(t)
 		if err != nil || len(buf) < 24 {
 			return 0
 		}
@@ -502,7 +502,7 @@ func (ir *ifdReader) parseGPSTimeStamp(t Tag) uint32 {
 // parseGPSDateStamp parses a GPSDateStamp from the tag
 func (ir *ifdReader) parseGPSDateStamp(t Tag) time.Time {
 	if t.IsType(tag.TypeASCII) {
-		buf, err := ir.readTagValue()
+		buf, err := ir.readTagValue(t)
 		if err != nil || len(buf) < 10 {
 			return time.Time{}
 		}
